@@ -19,14 +19,16 @@ def _run_batch(args):
     bdir = os.path.join(workdir, "b%d" % bid)
     shutil.rmtree(bdir, ignore_errors=True)
     os.makedirs(bdir)
-    sess = Session(bdir, reflink=opts.get("reflink", False), exact=opts.get("exact", False))
+    sess = Session(bdir, reflink=opts.get("reflink", False), exact=opts.get("exact", False),
+                   total=opts.get("total", False), layout=opts.get("layout", False))
     out = {"bid": bid, "programs": len(programs), "divs": [], "error": None}
     try:
-        results = []
+        results, finals = [], []
         for i, prog in enumerate(programs):
             if i > 0:
                 sess.new_cache()
             results.append(run_program(sess, prog))
+            finals.append({k: sess.prev[k] for k in ("buckets", "store", "ext", "tmp", "hasIndex")})
         sess.close()
         path = os.path.join(bdir, "trace.ndjson")
         sess.write_trace(path)
@@ -37,6 +39,20 @@ def _run_batch(args):
                     "accepted": info["accepted"]})
         if opts.get("keep_results"):
             out["results"] = results
+            out["final"] = finals
+        if opts.get("layout"):
+            lp = sess.write_layout_trace(os.path.join(bdir, "layout.ndjson"))
+            linfo = T.validate_file(lp, os.path.join(bdir, "tlc"), module="TraceLayout", cfg="TraceLayout.cfg")
+            out["layout_events"] = len(sess.layout)
+            out["states"] += linfo["states"]
+            out["transitions"] += linfo["transitions"]
+            if not linfo["accepted"]:
+                ev = T.event_at(lp, linfo.get("line", 0)) or {}
+                ev.pop("appended", None)
+                ev.pop("json", None)
+                out["layout_reject"] = {"line": linfo.get("line"), "event": ev, "trace": lp}
+                with open(os.path.join(bdir, "programs.json"), "w") as f:
+                    json.dump(programs, f)
         if not info["accepted"]:
             divs = V.collect_divergences(sess, os.path.join(bdir, "trace"), os.path.join(bdir, "tlc"))
             lines = open(os.path.join(bdir, "trace.diag.ndjson")).read().splitlines()
@@ -91,6 +107,12 @@ def run_batches(name, batches, opts=None, jobs=8):
         agg["transitions"] += o["transitions"]
         agg["cases"] |= {tuple(c) for c in o["cases"]}
         agg["anomalies"] += o["anomalies"]
+        agg["layout_events"] = agg.get("layout_events", 0) + o.get("layout_events", 0)
+        if o.get("layout_reject"):
+            lr = o["layout_reject"]
+            agg["divs"].append({"what": "layout", "line": lr["line"], "event": lr["event"], "trace": lr["trace"],
+                                "props": ["C17"],
+                                "programs": os.path.join(os.path.dirname(lr["trace"]), "programs.json")})
         if not o["accepted"]:
             agg["rejected"].append(o["trace"])
             for d in o["divs"]:
@@ -99,6 +121,7 @@ def run_batches(name, batches, opts=None, jobs=8):
                 agg["divs"].append(d)
         if o.get("results") is not None:
             agg.setdefault("results", []).append(o["results"])
+            agg.setdefault("finals", []).append(o["final"])
     return agg
 
 
